@@ -86,6 +86,46 @@ theorem mfi_invariant (p : Nat) (k kv : ℝ) (hk : 0 < k) (hv : 0 < kv) (h l c v
   have hneg := Scaled.msum p (Scaled.map2_hom (fun d r => if Arith.lt d zero then r else zero) (fun a b => (select_hom (k * kv) hc a b).2) hch hraw)
   exact Scaled.map_one' _ (Scaled.div hpos hneg) (div_self hc.ne')
 
+/-- **VPT scales with the volume unit and does not depend on the currency unit** -/
+theorem vpt_scaled (N : Nat) (k kv : ℝ) (hk : 0 < k) (x : Nat → Nat → ℝ) :
+    ∃ P Q, formulas N "Vpt" [] [] x = some [P] ∧
+      formulas N "Vpt" [] [] (fun j i => (match j with | 1 => kv | _ => k) * x j i) = some [Q] ∧ Scaled kv P Q := by
+  refine ⟨_, _, rfl, rfl, ?_⟩
+  have hP : Scaled kv ⟨1, fun i => x 1 i * (x 0 i - x 0 (i - 1)) / x 0 (i - 1)⟩
+      ⟨1, fun i => (kv * x 1 i) * (k * x 0 i - k * x 0 (i - 1)) / (k * x 0 (i - 1))⟩ := by
+    refine ⟨rfl, fun i => ?_⟩
+    show (kv * x 1 i) * (k * x 0 i - k * x 0 (i - 1)) / (k * x 0 (i - 1)) = kv * (x 1 i * (x 0 i - x 0 (i - 1)) / x 0 (i - 1))
+    by_cases hb : x 0 (i - 1) = 0
+    · simp [hb]
+    · have hk' := hk.ne'
+      field_simp
+  exact Scaled.cumulSum N 1 hP
+
+/-- the position of the window extreme does not change when the stream is multiplied by a positive factor -/
+theorem sinceExtreme_invariant (p : Nat) (pick : List ℝ → ℝ) (k : ℝ) (hk : 0 < k)
+    (hpick : ∀ l : List ℝ, pick (l.map (fun v => k * v)) = k * pick l) (P Q : PS ℝ) (h : Scaled k P Q) :
+    Scaled 1 (sinceExtreme p pick P) (sinceExtreme p pick Q) := by
+  refine ⟨by show Q.start + _ = P.start + _; rw [h.1], fun i => ?_⟩
+  simp only [sinceExtreme, one_mul]
+  rw [Scaled.window_scaled h, hpick]
+  congr 2
+  apply List.find?_congr
+  intro d _
+  simp only [h.2]
+  have : (k * P.val (i - d) = k * pick (window p P.val i)) ↔ (P.val (i - d) = pick (window p P.val i)) :=
+    ⟨fun e => mul_left_cancel₀ hk.ne' e, fun e => by rw [e]⟩
+  simp only [Arith.beq, instArithReal, this]
+
+/-- **Aroon does not depend on the currency unit** -/
+theorem aroon_invariant (N p : Nat) (k : ℝ) (hk : 0 < k) (x : Nat → Nat → ℝ) :
+    ∃ P1 P2 Q1 Q2, formulas N "Aroon" [p] [] x = some [P1, P2] ∧
+      formulas N "Aroon" [p] [] (fun j i => k * x j i) = some [Q1, Q2] ∧ Scaled 1 P1 Q1 ∧ Scaled 1 P2 Q2 := by
+  refine ⟨_, _, _, _, rfl, rfl, ?_, ?_⟩
+  · have h := sinceExtreme_invariant p maxL k hk (fun l => Scaled.maxL_scaled hk.le l) _ _ (Scaled.input k (x 0))
+    exact Scaled.scale _ (Scaled.over _ (Scaled.map_one _ h))
+  · have h := sinceExtreme_invariant p minL k hk (fun l => Scaled.minL_scaled hk.le l) _ _ (Scaled.input k (x 1))
+    exact Scaled.scale _ (Scaled.over _ (Scaled.map_one _ h))
+
 /-! ### decisions -/
 
 /-- a comparison between two quantities of the same degree is unchanged by a positive factor -/
